@@ -241,4 +241,133 @@ theorem tet_epic_quality_cycle123 (mv : ℝ) (n0 n1 n2 n3 : QNode ℝ) :
   · simp only [min_assoc, min_left_comm, min_comm]
   · ring
 
+/-- JAC tet quality (status included) is unchanged by the 3-cycle (0 1 2) … -/
+theorem tet_jac_quality_cycle012 (mv : ℝ) (n0 n1 n2 n3 : QNode ℝ) :
+    tetJacQuality mv n1 n2 n0 n3 = tetJacQuality mv n0 n1 n2 n3 := by
+  unfold tetJacQuality
+  simp only [tetVol_cycle012, avg4_cycle012, tetJacL2_cycle012]
+
+/-- … and by (1 2 3): all even permutations (the mean of the four log-metrics, the volume and `Σ eᵀMe` are symmetric) -/
+theorem tet_jac_quality_cycle123 (mv : ℝ) (n0 n1 n2 n3 : QNode ℝ) :
+    tetJacQuality mv n0 n2 n3 n1 = tetJacQuality mv n0 n1 n2 n3 := by
+  unfold tetJacQuality
+  simp only [tetVol_cycle123, avg4_cycle123, tetJacL2_cycle123]
+
+/-- EPIC triangle quality is unchanged by cyclic (= even) permutations of the vertices -/
+theorem tri_epic_quality_cycle (n0 n1 n2 : QNode ℝ) :
+    triEpicQuality n1 n2 n0 = triEpicQuality n0 n1 n2 := by
+  unfold triEpicQuality
+  simp only [triArea_cycle, cmin_eq, ratio_symm n1.x n0.x n1.m n0.m, ratio_symm n2.x n0.x n2.m n0.m, mul_eq, add_eq]
+  have hm : min (min (detOf n1.m) (detOf n2.m)) (detOf n0.m) = min (min (detOf n0.m) (detOf n1.m)) (detOf n2.m) := by
+    simp only [min_assoc, min_comm, min_left_comm]
+  have hs : ratioGeometric n1.x n2.x n1.m n2.m * ratioGeometric n1.x n2.x n1.m n2.m +
+      ratioGeometric n0.x n1.x n0.m n1.m * ratioGeometric n0.x n1.x n0.m n1.m +
+      ratioGeometric n0.x n2.x n0.m n2.m * ratioGeometric n0.x n2.x n0.m n2.m =
+      ratioGeometric n0.x n1.x n0.m n1.m * ratioGeometric n0.x n1.x n0.m n1.m +
+      ratioGeometric n0.x n2.x n0.m n2.m * ratioGeometric n0.x n2.x n0.m n2.m +
+      ratioGeometric n1.x n2.x n1.m n2.m * ratioGeometric n1.x n2.x n1.m n2.m := by ring
+  rw [hm, hs]
+
+/-- JAC triangle quality (status included) is unchanged by cyclic permutations of the vertices -/
+theorem tri_jac_quality_cycle (n0 n1 n2 : QNode ℝ) : triJacQuality n1 n2 n0 = triJacQuality n0 n1 n2 := by
+  rw [triJacQuality_eq, triJacQuality_eq]
+  simp only [avg3_cycle, triJacNN_cycle, triJacL2_cycle]
+
+
+/-! ### derivative exactness (jac triangle) -/
+
+/-- `n·n` (squared normal of the mapped triangle) is an exact quadratic in the position of node 0 with the coded
+    bracket `2 n·dn` as linear term -/
+theorem triJacNN_expand (J : J9 ℝ) (x0 x1 x2 δ : V3 ℝ) :
+    triJacNN J (vadd x0 δ) x1 x2 = triJacNN J x0 x1 x2 + vdot (triJacDNN J x0 x1 x2) δ + triJacNNq J x1 x2 δ :=
+  triJacNN_expand_aux J x0 x1 x2 δ
+
+/-- the sum of squared mapped edge lengths is an exact quadratic in node 0 with the coded `dl2` as linear term -/
+theorem triJacL2_expand (J : J9 ℝ) (x0 x1 x2 δ : V3 ℝ) :
+    triJacL2 J (vadd x0 δ) x1 x2 =
+      triJacL2 J x0 x1 x2 + vdot (triJacDL2 J x0 x1 x2) δ + 2 * vdot (vectMult J δ) (vectMult J δ) :=
+  triJacL2_expand_aux J x0 x1 x2 δ
+
+/-- on its smooth branch `ref_node_tri_jac_quality` returns `4√3 · (½|n|) / Σ|e|²` of the triangle mapped by `jac` -/
+theorem triJacQuality_smooth (n0 n1 n2 : QNode ℝ) (mx : Model.Matrix.M6 ℝ) (jm : Model.Matrix.M33 ℝ)
+    (hexp : Model.Matrix.expM (toMx (avg3 n0.l n1.l n2.l)) = .ok mx)
+    (hjac : Model.Matrix.jacobM mx = .ok jm)
+    (hdiv : Scalar.divisible ((1 / 2 : ℝ) * Real.sqrt (triJacNN (J9.ofM33 jm) n0.x n1.x n2.x))
+              (triJacL2 (J9.ofM33 jm) n0.x n1.x n2.x) = true) :
+    triJacQuality n0 n1 n2 =
+      .ok ((cTriJac : ℝ) * ((1 / 2 : ℝ) * Real.sqrt (triJacNN (J9.ofM33 jm) n0.x n1.x n2.x) /
+        triJacL2 (J9.ofM33 jm) n0.x n1.x n2.x)) := by
+  rw [triJacQuality_eq, hexp]
+  simp only [hjac, triJacTail, half_eq, mul_eq, sqrt_eq, div_eq, hdiv, if_true]
+
+/-- the gradient returned by `ref_node_tri_jac_dquality_dnode0` is the derivative of the MODEL FUNCTION `triJacQuality`
+    with respect to the position of node 0 (`HasDerivAt` along every line), on the smooth branch (non-degenerate mapped
+    triangle, divisible quotient).  In the other branch the C leaves `d_quality` untouched (`dq0`), see Model/Quality. -/
+theorem triJacQuality_hasDerivAt (dq0 : V3 ℝ) (n0 n1 n2 : QNode ℝ) (mx : Model.Matrix.M6 ℝ)
+    (jm : Model.Matrix.M33 ℝ) (q : ℝ) (d δ : V3 ℝ)
+    (hexp : Model.Matrix.expM (toMx (avg3 n0.l n1.l n2.l)) = .ok mx)
+    (hjac : Model.Matrix.jacobM mx = .ok jm)
+    (hnn : 0 < triJacNN (J9.ofM33 jm) n0.x n1.x n2.x)
+    (hdiv : Scalar.divisible ((1 / 2 : ℝ) * Real.sqrt (triJacNN (J9.ofM33 jm) n0.x n1.x n2.x))
+              (triJacL2 (J9.ofM33 jm) n0.x n1.x n2.x) = true)
+    (h : triJacDquality dq0 n0 n1 n2 = .ok (q, d)) :
+    HasDerivAt (fun t => qval (triJacQuality (n0.moved δ t) n1 n2)) (vdot d δ) 0 := by
+  set J := J9.ofM33 jm with hJ
+  have hl2 : triJacL2 J n0.x n1.x n2.x ≠ 0 := divisible_ne_zero hdiv
+  have hN := triJacNN_line J n0.x n1.x n2.x δ
+  have hL := triJacL2_line J n0.x n1.x n2.x δ
+  have hN0 : triJacNN J (line n0.x δ 0) n1.x n2.x = triJacNN J n0.x n1.x n2.x := by rw [line_zero]
+  have hL0 : triJacL2 J (line n0.x δ 0) n1.x n2.x = triJacL2 J n0.x n1.x n2.x := by rw [line_zero]
+  -- the smooth formula has the coded derivative
+  have key := hasDerivAt_triRatio (cTriJac : ℝ) (fun t => triJacNN J (line n0.x δ t) n1.x n2.x)
+    (fun t => triJacL2 J (line n0.x δ t) n1.x n2.x) _ _ 0 hN hL (by simpa only [hN0] using hnn)
+    (by simpa only [hL0] using hl2)
+  simp only [hN0, hL0] at key
+  have hd : vdot d δ = (cTriJac : ℝ) * ((1 / 2 : ℝ) * (1 / 2) / Real.sqrt (triJacNN J n0.x n1.x n2.x) *
+      vdot (triJacDNN J n0.x n1.x n2.x) δ * triJacL2 J n0.x n1.x n2.x -
+      (1 / 2 : ℝ) * Real.sqrt (triJacNN J n0.x n1.x n2.x) * vdot (triJacDL2 J n0.x n1.x n2.x) δ) /
+      triJacL2 J n0.x n1.x n2.x / triJacL2 J n0.x n1.x n2.x := by
+    have hdivm : Scalar.divisible (half *. Scalar.sqrt (triJacNN J n0.x n1.x n2.x)) (triJacL2 J n0.x n1.x n2.x) = true := by
+      simpa only [half_eq, mul_eq, sqrt_eq] using hdiv
+    have hform : triJacDquality dq0 n0 n1 n2 = .ok
+        (cTriJac *. ((half *. Scalar.sqrt (triJacNN J n0.x n1.x n2.x)) /. triJacL2 J n0.x n1.x n2.x),
+         ⟨cTriJac *. ((half *. half /. Scalar.sqrt (triJacNN J n0.x n1.x n2.x) *. (triJacDNN J n0.x n1.x n2.x).x) *.
+              triJacL2 J n0.x n1.x n2.x -. (half *. Scalar.sqrt (triJacNN J n0.x n1.x n2.x)) *.
+              (triJacDL2 J n0.x n1.x n2.x).x) /. triJacL2 J n0.x n1.x n2.x /. triJacL2 J n0.x n1.x n2.x,
+          cTriJac *. ((half *. half /. Scalar.sqrt (triJacNN J n0.x n1.x n2.x) *. (triJacDNN J n0.x n1.x n2.x).y) *.
+              triJacL2 J n0.x n1.x n2.x -. (half *. Scalar.sqrt (triJacNN J n0.x n1.x n2.x)) *.
+              (triJacDL2 J n0.x n1.x n2.x).y) /. triJacL2 J n0.x n1.x n2.x /. triJacL2 J n0.x n1.x n2.x,
+          cTriJac *. ((half *. half /. Scalar.sqrt (triJacNN J n0.x n1.x n2.x) *. (triJacDNN J n0.x n1.x n2.x).z) *.
+              triJacL2 J n0.x n1.x n2.x -. (half *. Scalar.sqrt (triJacNN J n0.x n1.x n2.x)) *.
+              (triJacDL2 J n0.x n1.x n2.x).z) /. triJacL2 J n0.x n1.x n2.x /. triJacL2 J n0.x n1.x n2.x⟩) := by
+      unfold triJacDquality
+      simp only [hexp, hjac]
+      change (if Scalar.divisible (half *. Scalar.sqrt (triJacNN J n0.x n1.x n2.x)) (triJacL2 J n0.x n1.x n2.x) = true
+        then _ else _) = _
+      rw [if_pos hdivm]
+      rfl
+    rw [hform] at h
+    simp only [Except.ok.injEq, Prod.mk.injEq] at h
+    obtain ⟨_, hdd⟩ := h
+    subst hdd
+    have hs : Real.sqrt (triJacNN J n0.x n1.x n2.x) ≠ 0 := (Real.sqrt_pos.mpr hnn).ne'
+    simp only [vdot, half_eq, sqrt_eq, mul_eq, div_eq, sub_eq]
+    field_simp
+    ring
+  rw [hd]
+  refine key.congr_of_eventuallyEq ?_
+  have hnumc : ContinuousAt (fun t => |(1 / 2 : ℝ) * Real.sqrt (triJacNN J (line n0.x δ t) n1.x n2.x)|) 0 :=
+    (continuousAt_const.mul (Real.continuous_sqrt.continuousAt.comp hN.continuousAt)).abs
+  have hdenc : ContinuousAt (fun t => (10 : ℝ) ^ (20 : ℤ) * |triJacL2 J (line n0.x δ t) n1.x n2.x|) 0 :=
+    continuousAt_const.mul hL.continuousAt.abs
+  have e2 : ∀ᶠ t in 𝓝 (0 : ℝ), |(1 / 2 : ℝ) * Real.sqrt (triJacNN J (line n0.x δ t) n1.x n2.x)| <
+      (10 : ℝ) ^ (20 : ℤ) * |triJacL2 J (line n0.x δ t) n1.x n2.x| := by
+    refine hnumc.eventually_lt hdenc ?_
+    simp only [hN0, hL0]
+    exact (divisible_iff' _ _).mp hdiv
+  filter_upwards [e2] with t ht
+  have := triJacQuality_smooth (n0.moved δ t) n1 n2 mx jm hexp hjac ((divisible_iff' _ _).mpr ht)
+  rw [this]
+  rfl
+
 end Refine.Props.C15Quality
